@@ -15,7 +15,7 @@ SNAP_GLOBALS = ["flagexitasap", "flagspawnalive", "flagcleanup", "numjobs", "rec
 
 def replay_lines(text):
     """the cases of a replay file: either plain lines (schedule lines / 'm=...' scenario lines, '#' comments) or a replays/C16-*.json written by a
-    VIOLATION, whose 'raw' field is the driver's ORACLE/DISAGREE text: 'ninj=<n> snap=<s> sched=<c0,c1,..> why=...' or '<scenario> select#<k> why=...'"""
+    VIOLATION, whose 'raw' field is the driver's ORACLE/DISAGREE text: 'ninj=<n> snap=<s> var=<v> sched=<c0,c1,..> why=...' or '<scenario> select#<k> why=...'"""
     try:
         import json
         raw = json.loads(text).get("raw", "")
@@ -29,7 +29,7 @@ def replay_lines(text):
         return [raw]
     f = kv(raw)
     if "sched" in f:
-        return ["%s %s %s" % (f.get("ninj", "2"), f.get("sched", "-"), f.get("snap", "0"))]
+        return ["%s %s %s %s" % (f.get("ninj", "2"), f.get("sched", "-"), f.get("snap", "0"), f.get("var", "0"))]
     return []
 
 
@@ -80,6 +80,10 @@ def main():
                         corpus_sel = os.path.join(s.dir, "corpus_scen.txt"); open(corpus_sel, "w").write("\n".join(cscen) + "\n")
                 cmds.append("%s 0 100000 %d 0 1" % (h, c.seed))                       # one injector: exhaustive
                 cmds += ["%s 1 %d %d %d %d" % (h, nrand, c.seed, i, NCPU) for i in range(NCPU)]   # two injectors: random schedules
+                # START-UP leg: injector A starts together with the daemon (its steps interleave with todo_init's open, the first selects, the start-up
+                # re-arm and the first scan, or finish before the daemon's first step): bounded-exhaustive for one injector, random for two
+                cmds += ["%s 4 %d %d %d %d" % (h, 150 if c.tier == "quick" else 4000, c.seed, i, 27) for i in range(27)]
+                cmds += ["%s 5 %d %d %d %d" % (h, 20 if c.tier == "quick" else 600, c.seed, i, NCPU) for i in range(NCPU)]
                 if c.tier == "quick":
                     cmds += ["%s 2 %d %d %d %d" % (h, ndfs, c.seed, i, NCPU) for i in range(9)]   # two injectors: DFS, partitioned by the first two decisions
                 else:                                                                             # thorough: by the first three (27 subtrees: even load on the cores)
@@ -118,12 +122,15 @@ def main():
                 for d in dis[:40]:
                     f = kv(d)
                     sc = f.get("sched", "-")
+                    if "sched" not in f:
+                        continue                  # a daemon-scenario line (selprep leg): its CASE text is the replay already
                     ninj = f.get("ninj", "2")
+                    var = f.get("var", "0")
                     ch = [] if sc == "-" else sc.split(",")
                     for i in range(len(ch) + 1):
                         for alt in ("0", "1", "2"):
                             for snap in ("0", "1"):
-                                cases.add("%s %s %s" % (ninj, ",".join(ch[:i] + [alt]) or "-", snap))
+                                cases.add("%s %s %s %s" % (ninj, ",".join(ch[:i] + [alt]) or "-", snap, var))
                 tf = os.path.join(s.dir, "nb.txt")
                 open(tf, "w").write("\n".join(sorted(cases)) + "\n")
                 o2_ = run_pipeline(["%s - < %s" % (h, tf)], drv)
@@ -141,7 +148,9 @@ def main():
                      "whenever every runnable program is about to make a trigger-related system call (link todo / open, write, close of the FIFO / trigger_set's "
                      "close and open / opendir, readdir of todo / select). One injector: every schedule (depth-first, complete). Two injectors (the second starts "
                      "when the first has written its byte): seeded random schedules plus depth-first enumeration partitioned by the first two decisions "
-                     "(%s). Each trace is replayed through Trigger.accept; the oracle fails if the daemon ever sleeps with a positive timeout, or the run ends, while a completed injection is unprocessed, "
+                     "(%s). START-UP leg: injector A starts TOGETHER with the daemon, so that complete injections interleave with (or precede) todo_init's open of the FIFO, the first selects, "
+                     "the start-up re-arm and the first scan: every interleaving of the first 9 (thorough: 12) decisions for one injector, seeded random schedules for two. "
+                     "Each trace is replayed through Trigger.accept; the oracle fails if the daemon ever sleeps with a positive timeout, or the run ends, while a completed injection is unprocessed, "
                      "or if a completed injection is not processed within the 2*|todo|+3 own steps of the daemon of C16_bounded. "
                      "Select preparation: in these runs and in the daemon scenarios of harness/qsend.c (deliveries, deferrals, bounce failures, signals, faults, crashes, restarts, "
                      "concurrency bounds; harness/c16_selprep.c) the globals of the running qmail-send are read at every select (harness/c16_snap.h), at the moment select() is entered, "
@@ -149,11 +158,17 @@ def main():
                      "C16_early_return_acts are evaluated on the implementation's values (ORACLE: timeout 0 iff something pending, otherwise exactly min(due times, recent+SLEEP_FOREVER) "
                      "- recent + SLEEP_FUZZ; only descriptors the loop body acts on are watched, and none it must react to is missing). The snapshot also lists the due times of ALL "
                      "entries of pqchan[0..1], pqfail, pqdone: the predicates of C16_never_past_any_queued are evaluated on the implementation's timeout against the minimum over everything "
-                     "queued (ORACLE, independent of which entry the heap has at its root), and its premise 'every root is a minimum' on the arrays (DISAGREE). c16_selprep.c adds to the "
+                     "queued (ORACLE, independent of which entry the heap has at its root), and its premise 'every root is a minimum' on the arrays (DISAGREE). "
+                     "The snapshot also carries tv_usec (qsim's select writes the remaining time back into the timeval like Linux; SelPrep passes whole seconds: DISAGREE on any other "
+                     "value, and the oracles count a fraction of a second as a sleep), the SIMULATOR's clock at select entry (DISAGREE when the program's `recent` differs; all timeout "
+                     "oracles are evaluated at the simulator's clock, not at the program's own idea of it) and the number of entries in todo/ (daemon scenarios: arrivals are atomic, so "
+                     "every entry is a completed injection - ORACLE when the daemon asks to sleep with one unprocessed and the trigger not readable: in the queue at start = injected while "
+                     "the daemon was down, or injected while the previous daemon drained after TERM). c16_selprep.c adds to the "
                      "scenarios of qsend.c: deferred-queue scenarios (3-6 messages, mostly deferred, some delivered/failed, arriving before/during/after the start-up scan, virtual time passing "
                      "between selects: queues of three and more entries with distinct due times, entries leaving and coming back), SIGALRM/SIGHUP/SIGTERM that INTERRUPT a select (EINTR after "
                      "0..999 permille of the timeout, nothing else happening at that call) at selects drawn from the whole run, clean stops/crashes followed by a restart on the deferred queue, "
-                     "and interrupt sweeps (base run, then one run per select point - every idle select with messages queued, every select next to a command/report/arrival, every 16th other - "
+                     "every answer of qmail-clean taking `slow=` seconds (time passing inside the do-phase), restart sweeps (deliveries in flight, TERM at each of the next 8 selects, a second "
+                     "injection 0..2 selects later while daemon #1 drains, then daemon #2 on that queue), and interrupt sweeps (base run, then one run per select point - every idle select with messages queued, every select next to a command/report/arrival, every 16th other - "
                      "with SIGALRM/SIGHUP interrupting exactly that select). non-trivial = distinct schedule / scenario" % ("capped at 150 schedules per partition in the quick tier" if c.tier == "quick" else "thorough tier: partitioned by the first three decisions, capped at 7000 schedules in each of the 27 partitions"))
     c.cov["exhaustive"] = False
     c.cov["samples"] = samples[:6] or ["(none)"]
